@@ -83,6 +83,9 @@ func (c *ctx) finish(op string, out string) {
 	}
 	c.kinds[k]++
 	if len(c.samples) < 12 {
+		if len(op) > 160 {
+			op = op[:160] + "..."
+		}
 		c.samples = append(c.samples, op+" => "+out)
 	}
 }
